@@ -350,6 +350,13 @@ func (p *Proxy) handleLoop(conn net.Conn) {
 		} else {
 			errorsN = 0
 		}
+
+		// The response may have been in progress when shutdown started,
+		// do not go back to waiting for the next request on this connection.
+		if p.closing() {
+			log.Debug(context.TODO(), "closing connection, proxy is shutting down", "address", conn.RemoteAddr().String(), "duration", time.Since(start))
+			return
+		}
 	}
 }
 
